@@ -125,6 +125,7 @@ static void handleJob(const std::vector<const Prog*>& progs, const std::string& 
 	vsched::ExploreStats st = vsched::explore(body, after, bound);
 	if (getenv("VF_DEBUG")) fprintf(stderr, "job %s: exec %llu points %llu maxpts %llu\n", kase.c_str(), (unsigned long long)st.executions, (unsigned long long)st.points, (unsigned long long)st.max_points);
 	vf::add(C_JOBS);
+	vf::note(fmt("traces:handles:%s:%d-threads", HK<H>::name(), (int)progs.size()), st.executions);
 	vf::note(fmt("outcomes:%s", HK<H>::name()), outcomes.size());
 	if (!st.complete) vf::cap_hit("execution cap in " + kase);
 }
@@ -169,6 +170,7 @@ static void counterJob(bool atomicT, const std::vector<const Prog*>& progs, cons
 	if (replay) { vsched::Result x = vsched::run_once(vsched::parse_schedule(*replay), body); after(x); return; }
 	vsched::ExploreStats st = vsched::explore(body, after, bound);
 	vf::add(C_JOBS);
+	vf::note(atomicT ? "traces:Atomic<Counter>" : "traces:AtomicCount", st.executions);
 	if (!st.complete) vf::cap_hit("execution cap in " + kase);
 }
 
@@ -214,9 +216,9 @@ int main(int argc, char** argv) {
 	{ std::vector<Prog> small; genProgs(1, true, false, Prog(), small); size_t n = small.size();
 	  for (int k = 0; k < 5; k++) for (size_t a = 0; a < n; a++) for (size_t b = a; b < n; b++) for (size_t c = b; c < n; c++) { Job j; j.family = 0; j.kind = k; j.prog.push_back((int)a); j.prog.push_back((int)b); j.prog.push_back((int)c); j.bound = T ? 2 : 1; jobs.push_back(j); } }
 	// AtomicCount: every pair of ++/-- programs; Atomic<Counter>: every pair of programs over ++ -- += -= *=
-	for (size_t a = 0; a < CP1.size(); a++) for (size_t b = a; b < CP1.size(); b++) { Job j; j.family = 1; j.kind = 0; j.prog.push_back((int)a); j.prog.push_back((int)b); j.bound = (CP1[a].size() + CP1[b].size() <= (T ? 6u : 4u)) ? -1 : 2; jobs.push_back(j); }
-	for (size_t a = 0; a < CP2.size(); a++) for (size_t b = a; b < CP2.size(); b++) { Job j; j.family = 2; j.kind = 0; j.prog.push_back((int)a); j.prog.push_back((int)b); j.bound = T ? -1 : 2; jobs.push_back(j); }
-	{ std::vector<Prog> one; genCounterProgs(2, 1, one); for (size_t a = 0; a < 2; a++) for (size_t b = 0; b < 2; b++) for (size_t c = 0; c < 2; c++) { Job j; j.family = 1; j.kind = 0; j.prog.push_back((int)a); j.prog.push_back((int)b); j.prog.push_back((int)c); j.bound = -1; jobs.push_back(j); } }
+	for (size_t a = 0; a < CP1.size(); a++) for (size_t b = a; b < CP1.size(); b++) { Job j; j.family = 1; j.kind = 0; j.prog.push_back((int)a); j.prog.push_back((int)b); size_t tot = CP1[a].size() + CP1[b].size(), mx = std::max(CP1[a].size(), CP1[b].size()); j.bound = tot <= (T ? 8u : 6u) ? -1 : 2; (void)mx; jobs.push_back(j); }
+	for (size_t a = 0; a < CP2.size(); a++) for (size_t b = a; b < CP2.size(); b++) { Job j; j.family = 2; j.kind = 0; j.prog.push_back((int)a); j.prog.push_back((int)b); j.bound = T ? -1 : 3; jobs.push_back(j); }
+	{ std::vector<Prog> one; genCounterProgs(2, 1, one); for (size_t a = 0; a < 2; a++) for (size_t b = 0; b < 2; b++) for (size_t c = 0; c < 2; c++) { Job j; j.family = 1; j.kind = 0; j.prog.push_back((int)a); j.prog.push_back((int)b); j.prog.push_back((int)c); j.bound = T ? 3 : 2; jobs.push_back(j); } }
 	if (getenv("C12_BOUND")) for (size_t i = 0; i < jobs.size(); i++) jobs[i].bound = atoi(getenv("C12_BOUND"));
 	if (getenv("C12_ONLY")) { std::vector<Job> q; for (size_t i = 0; i < jobs.size(); i++) if (jobName(jobs[i]).find(getenv("C12_ONLY")) == 0) q.push_back(jobs[i]); jobs.swap(q); }
 	if (vf::opt.replay) {
